@@ -36,26 +36,34 @@ theorem toF_exact (d : Dev) (a : Int) (h : d.viaF64 = true → a.natAbs < 2 ^ 53
   · simp only [↓reduceIte]
     exact Flt.ofInt_exact a (h hv)
 
-theorem ifaceEq_eq_fixed (d : Dev) (l r : Val) (h : d.uncmp = true → sameContainer l r = false) :
+theorem ifaceEq_eq_fixed (d : Dev) (l r : Val) (h : d.faultFlag l = true → sameContainer l r = false) :
     ifaceEq d l r = ifaceEq Dev.fixed l r := by
-  cases hu : d.uncmp
-  · cases l <;> cases r <;> simp [ifaceEq, hu, Dev.fixed]
-  · have := h hu
-    cases l <;> cases r <;> simp_all [ifaceEq, sameContainer, isArr, isObj]
+  cases hok : ifaceEq d l r with
+  | error f =>
+    have := (ifaceEq_error_iff d l r).1 ⟨f, hok⟩
+    rw [h this.1] at this
+    exact absurd this.2 (by simp)
+  | ok b =>
+    rw [← hok]
+    cases l <;> cases r <;> try rfl
+    case arr.arr => simp only [ifaceEq] at hok ⊢; split at hok <;> simp_all [Dev.fixed]
+    case obj.obj => simp only [ifaceEq] at hok ⊢; split at hok <;> simp_all [Dev.fixed]
     case ext.ext a b =>
-      by_cases h1 : a.ty = b.ty <;> cases h2 : a.cmp <;> simp_all [sameUExt]
+      simp only [ifaceEq] at hok ⊢
+      by_cases h1 : a.ty = b.ty <;> cases h2 : a.cmp <;> simp_all [Dev.fixed]
+      split at hok <;> simp_all
 
 theorem inLoop_eq_fixed (d : Dev) (l : Val) (xs : List Val)
-    (h : d.uncmp = true → xs.any (sameContainer l) = false) : inLoop d l xs = inLoop Dev.fixed l xs := by
+    (h : d.faultFlag l = true → xs.any (sameContainer l) = false) : inLoop d l xs = inLoop Dev.fixed l xs := by
   induction xs with
   | nil => rfl
   | cons x xs ih =>
-    have h1 : d.uncmp = true → sameContainer l x = false := by
+    have h1 : d.faultFlag l = true → sameContainer l x = false := by
       intro hu
       have := h hu
       simp only [List.any_cons, Bool.or_eq_false_iff] at this
       exact this.1
-    have h2 : d.uncmp = true → xs.any (sameContainer l) = false := by
+    have h2 : d.faultFlag l = true → xs.any (sameContainer l) = false := by
       intro hu
       have := h hu
       simp only [List.any_cons, Bool.or_eq_false_iff] at this
@@ -83,7 +91,7 @@ set_option maxHeartbeats 1000000 in
 /-- outside the three named classes every operator `case` of the model — for ANY combination of
 deviations, in particular for the pinned code — computes the specified value -/
 theorem evalOp_eq_spec_of (d : Dev) (rx : RxEngine) (o : Op) (l r : Val)
-    (hu : d.uncmp = true → uncomparablePair o l r = false)
+    (hu : d.faultFlag l = true → uncomparablePair o l r = false)
     (hq : d.neqFlt = true → neqFloatCase o l r = false)
     (hv : d.viaF64 = true → bigMixed o l r = false) :
     evalOp d rx o l r = .ok (Spec.evalOp rx o l r) := by
